@@ -159,7 +159,12 @@ pub trait Read {
     {
         let mut buf = [0; size_of::<u64>()];
         self.read_exact(&mut buf)?;
-        Ok(F::from_canonical_u64(u64::from_le_bytes(buf)))
+        let n = u64::from_le_bytes(buf);
+        // Reject non-canonical encodings: `from_canonical_u64` asserts `n < ORDER`.
+        if n >= F::ORDER {
+            return Err(IoError);
+        }
+        Ok(F::from_canonical_u64(n))
     }
 
     /// Reads a vector of elements from the field `F` from `self`.
